@@ -894,10 +894,14 @@ Definition interp_step (ev : expr -> machine -> outcome (value * machine)) (m : 
           end
       | FLoop p =>
           let start := S (m_pc m) in
-          do pc2 <- skip_block_from m start;
-          match stmt_at pc2 with
-          | Some (FContinue _) =>
-              Ok (set_pc (set_loops m (mkLoop start (S pc2) (length (m_scopes m)) :: m_loops m)) start)
+          match stmt_at start with
+          | Some (FBlockStart _) =>                (* the loop's own block comes first *)
+              do pc2 <- skip_block_from m start;
+              match stmt_at pc2 with
+              | Some (FContinue _) =>
+                  Ok (set_pc (set_loops m (mkLoop start (S pc2) (length (m_scopes m)) :: m_loops m)) start)
+              | _ => fail_at ERuntime p m
+              end
           | _ => fail_at ERuntime p m
           end
       | FContinue _ =>
